@@ -130,6 +130,11 @@ func (p Program) Build() bigslice.Slice {
 		a, _ := op(base, bt, Op{Kind: OpReshard, N: p.N1})
 		b, _ := op(base, bt, Op{Kind: OpReshard, N: p.N2})
 		s = bigslice.Cogroup(a, b)
+	case ShapeFanout:
+		x, xt := op(src, SourceType(p.Src), Op{Kind: OpMap, Var: MapAdd1})
+		a, _ := op(x, xt, fanoutOp(p.N1))
+		b, _ := op(x, xt, fanoutOp(p.N2))
+		s = bigslice.Cogroup(a, b)
 	case ShapeNested:
 		l, lt := op(src, SourceType(p.Src), Op{Kind: OpMap, Var: MapKeyMod3})
 		l, _ = op(l, lt, Op{Kind: OpReduce})
